@@ -61,6 +61,11 @@ def form_lines(st):
         return _L("S.emit('%s')" % p[0])
     if f == 'say':
         return _L("S.say('%s', '%s')" % (st.get('text', 'ok'), p[0]))
+    if f == 'mkdel':
+        # an object whose finaliser prints, reachable only through a cycle with the doctest's namespace
+        return _L("sim_del%d = type('SimDel', (), {'__del__': lambda self: print('sim released %d'), '__repr__': lambda self: 'SimDel'})()" % (i, i))
+    if f == 'gccollect':
+        return _L("sim_gc%d = [__import__('gc').collect()][1:]" % i)
     if f == 'usestd':
         # what the name of a standard library module means to this doctest
         return _L("S.say(str(hasattr(__import__('colorsys'), 'rgb_to_hls')), '%s')" % p[0])
